@@ -439,6 +439,18 @@ def mentioned_paths(payload_bytes, argv_paths, cwd):
         # every name that does not follow the generated pattern
         strs = [x for x in strs if "/gen/f" not in x] + [x for x in strs if "/gen/f" in x][:50]
         strs = strs[:3000]
+    # the decoders trim surrounding whitespace of a path and strip `file://` / `file://localhost` (normalize_hook_path):
+    # a path mentioned in either spelling is a mentioned path
+    extra = []
+    for s_ in strs:
+        t_ = s_.strip()
+        for pre in ("file://localhost", "file://"):
+            if t_.startswith(pre):
+                t_ = t_[len(pre):]
+                break
+        if t_ != s_:
+            extra.append(t_)
+    strs = strs + extra
     absolute = [s for s in strs if s.startswith("/")]
     bases = set([cwd] + [a for a in absolute if os.path.isdir(a)])
     for s in strs:
